@@ -61,6 +61,7 @@ type Attr struct {
 	Val      *Validation `json:"validation,omitempty"`
 	View     string      `json:"view,omitempty"` // result-type attribute rendered with this view
 	Sec      string      `json:"sec,omitempty"`  // username | password | apikey:<scheme> | token | accesstoken
+	ErrName  bool        `json:"err_name,omitempty"` // ErrorName(): the attribute of a custom error type that holds the error name
 }
 
 // View of a result type.
@@ -88,6 +89,7 @@ type UserType struct {
 	Name       string  `json:"name"`
 	Attr       *Attr   `json:"attr"` // Type.Kind object (or alias of a primitive)
 	IsResult   bool    `json:"is_result,omitempty"`
+	IsError    bool    `json:"is_error,omitempty"` // only used as the type of declared errors
 	Identifier string  `json:"identifier,omitempty"`
 	Views      []*View `json:"views,omitempty"`
 }
@@ -103,6 +105,8 @@ type ErrorDef struct {
 	// for custom object error types: attribute holding the error name, headers
 	NameField string            `json:"name_field,omitempty"`
 	Headers   map[string]string `json:"headers,omitempty"` // attr -> header
+	// Inherit "api": a method-level declaration whose HTTP response is the one mapped at API level
+	Inherit string `json:"inherit,omitempty"`
 }
 
 // Response of a method.
